@@ -81,7 +81,7 @@ pub fn run(prop: &str, tier: Tier, seed: u64, replay: Option<&str>) -> i32
             rule: "cases = lists of steps (one system run each, 1..n accessor calls of one accessor family plus world-level insert/trigger/despawn calls) decoded from proptest byte strings; every (call kind x entity/value state) cell is a class; non-trivial = >= 3 distinct cells with >= 1 reacting and >= 1 non-reacting call; distinct = distinct case hashes".into(),
             assumptions: vec![
                 "probe reactors (type-wide and entity-scoped, persistent) observe every insertion / mutation / resource reaction".into(),
-                "type-wide mutation reactions for an entity that is dead when the trigger is applied are accepted either way (left open by the property set)".into(),
+                "a mutation trigger whose entity died between the call and its application still runs the type-wide mutation reactors (exactly one trigger per call); entity-scoped ones died with the entity".into(),
             ],
         };
         return run_check(&spec, tier, seed, replay);
@@ -115,6 +115,23 @@ pub fn run(prop: &str, tier: Tier, seed: u64, replay: Option<&str>) -> i32
                 "at most one AutoDespawner::prepare per entity (two prepares are two independent counts)".into(),
                 "thread interleavings are sampled by the OS scheduler, not enumerated; the checked invariants are schedule independent".into(),
                 "a counted child dies with its collected ancestor (despawn_recursive)".into(),
+            ],
+        };
+        return run_check(&spec, tier, seed, replay);
+    }
+    if prop == "C16"
+    {
+        let engine = crate::wr16::WrEngine{ prop: "C16" };
+        let spec = CheckSpec{
+            prop: "C16",
+            engine: &engine,
+            quick_cases: 40_000,
+            thorough_cases: 1_500_000,
+            rule: "cases = histories of add / remove (full and partial) / run / trigger / despawn operations over two WorldReactors with dynamic bundles, one with starting triggers and three EntityWorldReactors with local data, decoded from proptest byte strings; non-trivial = >= 2 entities added to entity reactors and >= 1 partial removal; distinct = distinct case hashes".into(),
+            assumptions: vec![
+                "an entity is re-added to an entity world reactor only after all its triggers were removed; a world reactor never gets a key it already has (duplicate triggers are unspecified)".into(),
+                "registration changes never happen while a removal / despawn waits for a poll (the harness settles first), so 'registered throughout' is unambiguous".into(),
+                "entity events are only sent to live entities".into(),
             ],
         };
         return run_check(&spec, tier, seed, replay);
